@@ -113,8 +113,8 @@ func evalExecBlock(vm *r.VM, execBlock *syntax.ExecBlock, params []r.Element) (r
 			return nil, err
 		}
 
-		// set inputValue to current scope
-		if err := vm.DeclareElement(idTag, params[idx]); err != nil {
+		// set inputValue to current scope (输入 names are constants)
+		if err := vm.DeclareConstElement(idTag, params[idx]); err != nil {
 			return nil, err
 		}
 	}
@@ -315,7 +315,7 @@ func evalVarDeclareStmt(vm *r.VM, node *syntax.VarDeclareStmt) error {
 					err2 = vm.DeclareElement(vtag, obj)
 				}
 				if err2 != nil {
-					return err
+					return err2
 				}
 			}
 		}
